@@ -137,8 +137,6 @@ func (d *HTTPProxyDialer) DialContextR(ctx context.Context, network, addr string
 		auth := u.Username() + ":" + pass
 		req.Header.Add("Proxy-Authorization", "Basic "+base64.StdEncoding.EncodeToString([]byte(auth)))
 	}
-	maps.Copy(req.Header, d.ProxyConnectHeader)
-
 	if d.GetProxyConnectHeader != nil {
 		headers, err := d.GetProxyConnectHeader(ctx, d.proxyURL, addr)
 		if err != nil {
@@ -148,6 +146,10 @@ func (d *HTTPProxyDialer) DialContextR(ctx context.Context, network, addr string
 
 		maps.Copy(req.Header, headers)
 	}
+	// ProxyConnectHeader is the header of the CONNECT request that is being relayed, the connect header rules
+	// have been applied to it already. It goes last: the header computed for a CONNECT of the proxy's own
+	// (the same rules applied to an empty header) must not replace fields the client sent.
+	maps.Copy(req.Header, d.ProxyConnectHeader)
 
 	if err := req.Write(pbw); err != nil {
 		conn.Close()
